@@ -59,11 +59,21 @@ func c08ListStyleNone(c *core.Check) {
 		return
 	}
 	folded := false
-	for _, w := range core.ComparedStrings(fn, core.IsCallNamed("AsciiLower")) {
+	for _, w := range core.ComparedStrings(fn, core.IsCallNamed("AsciiLower", "ToLower")) {
 		if w == "none" {
 			folded = true
 		}
 	}
+	// or a case-insensitive comparison: strings.EqualFold(name, "none") (no non-ASCII letter folds to n, o or e)
+	core.Instrs(fn, func(in ssa.Instruction) {
+		if call, ok := in.(*ssa.Call); ok && call.Call.StaticCallee() != nil && call.Call.StaticCallee().Name() == "EqualFold" {
+			for _, a := range call.Call.Args {
+				if w, ok := core.ConstStr(a); ok && w == "none" {
+					folded = true
+				}
+			}
+		}
+	})
 	stored := false
 	var flows func(v ssa.Value, depth int) bool
 	flows = func(v ssa.Value, depth int) bool {
